@@ -21,6 +21,14 @@ class UnitDecl:
 NATIVE: dict = {}
 
 
+def width(quick: int, thorough: int) -> int:
+    """element counts for loops that are verified element-wise over a small concrete list (unroll=True): the quick tier
+    uses `quick`, `--tier thorough` uses `thorough`"""
+    import os
+
+    return thorough if os.environ.get("PYVC_TIER") == "thorough" else quick
+
+
 def native(unit_name):
     """register a native replayer: f(model: dict, obligation: str) -> {'confirmed': bool, 'detail': str, ...}
     It must call the REAL, uninstrumented code of the current tree with the concrete counterexample."""
